@@ -46,6 +46,9 @@ CURATED_GREEDY = [
     spec("string", [tok("STR", cat(lit('"'), star(alt(cls(['"', 0x5C, 0x0A], neg=True), cat(lit([0x5C]), anyc()))), lit('"'))), tok("ID", plus(cls(["a-z"]))), WS]),
     spec("comment-greedy", [tok("DIV", lit("/")), frag(cat(lit("//"), star(cls([0x0A], neg=True))), ["discard"]), tok("ID", plus(cls(["a-z"]))), WS]),
     spec("frag-emit", [frag(plus(cls(["0-9"])), ["emit", "NUM"]), tok("NUM", lit("#")), tok("ID", plus(cls(["a-z"])))]),
+    # the start state is equivalent to a mid-token state (minimisation may merge them)
+    spec("start-equivalent-mid-state", [tok("A", cat(star(lit("x")), lit("a")))]),
+    spec("start-equivalent-mid-state2", [tok("N", cat(star(cls(["0-9"])), lit("."), plus(cls(["0-9"])))), tok("S", lit(" "))]),
     spec("surrogate-edges", [tok("BELOW", plus(cls([[0xD000, 0xD7FF]]))), tok("ABOVE", plus(cls([[0xE000, 0xE0FF]]))), tok("A", lit("a"))]),
 ]
 
